@@ -1838,7 +1838,7 @@ class GramStack(Stack):
 
         if ha in blockeds: # already blocked on this iteration
             laters.append((pkt, ha)) # keep sequential
-            return False  # blocked
+            return True  # only this destination is blocked so keep going with others
 
         try:
             count = self.handler.send(pkt.packed, ha)  # datagram always sends all
@@ -1888,8 +1888,8 @@ class GramStack(Stack):
             blockeds = [] # will always be empty since only once
             if self.txPkts:
                 self._serviceOneTxPkt(laters, blockeds)
-            while laters:
-                self.txPkts.append(laters.popleft())
+            while laters:  # put back at front so stays ahead of later pkts
+                self.txPkts.appendleft(laters.pop())
 
     def transmit(self, pkt, ha=None):
         """
